@@ -97,7 +97,8 @@ structure WF (w : Wal) : Prop where
   ne : w.disk.ents ≠ []
   contig : Contig w.disk.ents
   cLast : ∀ l, w.cache.last = some l → ∃ e, w.disk.ents.getLast? = some e ∧ e.index = l
-  cFirst : ∀ f, w.cache.first = some f → ∃ e, w.disk.ents.head? = some e ∧ f = e.index + 1
+  /-- the cached first index is consulted only while no snapshot is cached -/
+  cFirst : w.cachedSnap = none → ∀ f, w.cache.first = some f → ∃ e, w.disk.ents.head? = some e ∧ f = e.index + 1
   cSnap : ∀ s, w.cachedSnap = some s → w.disk.ss = some s
   /-- the first key is the stored snapshot's entry (index 0 and no snapshot for a fresh store) -/
   ssHead : ∃ e, w.disk.ents.head? = some e ∧ e.index = (w.disk.ss.getD emptySnap).index
@@ -140,7 +141,7 @@ theorem firstIndex_refines (w : Wal) (h : WF w) :
     cases hcf : w.cache.first with
     | some f =>
       simp only
-      obtain ⟨e2, he2, hf⟩ := h.cFirst f hcf
+      obtain ⟨e2, he2, hf⟩ := h.cFirst hcs f hcf
       have : e2 = e' := by rw [he] at he2; exact (Option.some.inj he2).symm
       subst this
       exact ⟨w, by simp [Mem.firstIndex, hoff, hf], rfl, h⟩
@@ -156,7 +157,7 @@ theorem firstIndex_refines (w : Wal) (h : WF w) :
       refine ⟨{ w with cache := { w.cache with first := some (e'.index + 1) } }, ?_, rfl, ?_⟩
       · simp [Mem.firstIndex, hoff]
       refine ⟨h.ne, h.contig, h.cLast, ?_, ?_, h.ssHead⟩
-      · intro f hf
+      · intro _ f hf
         have hf' : some (e'.index + 1) = some f := hf
         exact ⟨e', he, (Option.some.inj hf').symm⟩
       · intro s hs
@@ -237,7 +238,7 @@ theorem reopen_refines (w : Wal) (h : WF w) :
   have hwf0 : WF ⟨w.disk, emptyCache⟩ := by
     refine ⟨h.ne, h.contig, ?_, ?_, ?_, h.ssHead⟩
     · intro l hl; simp [emptyCache] at hl
-    · intro f hf; simp [emptyCache] at hf
+    · intro _ f hf; simp [emptyCache] at hf
     · intro s hs; simp [Wal.cachedSnap, emptyCache] at hs
   obtain ⟨w', hf, hdisk, hwf'⟩ := firstIndex_refines ⟨w.disk, emptyCache⟩ hwf0
   unfold Wal.open_
